@@ -43,7 +43,8 @@ def r1(ctx, only=None, rule_prefix=""):
     table = panics.load_table()
     n_dis = 0
     kinds = collections.Counter()
-    drop_ok = getattr(ctx, "_cursor_ok", None)
+    pending = []
+    matched = set()
     for s in sites:
         ctx.obligations += 1
         kinds[s.kind] += 1
@@ -53,15 +54,33 @@ def r1(ctx, only=None, rule_prefix=""):
             continue
         e = table.get(s.key)
         if e is None:
-            ctx.violation("%spanic/%s" % (rule_prefix, s.key), "%s (%s)" % (s.sp, s.fn),
-                          "possible panic: %s on `%s` is neither guarded (no local discharge rule applies: no dominating "
-                          "is_some/is_ok/len/contains_key/comparison guard on this operand) nor a reviewed site" %
-                          (s.kind.replace("call:", "").replace("assert:", "overflow/bounds check "), s.desc),
-                          {"kind": s.kind, "operand": s.desc, "function": s.fn})
+            pending.append(s)
         elif e["class"] == "finding":
             ctx.violation("%spanic/%s" % (rule_prefix, s.key), "%s (%s)" % (s.sp, s.fn), e["reason"], {"class": "finding"})
         else:
+            matched.add(s.key)
             ctx.discharged += 1
+    # reviewed sites that moved (helper extracted, local renamed, closure renumbered): an entry of the table that matches no
+    # site any more covers one undischarged site of the same shape (kind + operand expression up to local names), wherever it
+    # now lives.  The budget is one site per entry, so an additional unguarded site of that shape is still reported.
+    budget = collections.Counter()
+    if only is None:
+        live_keys = {s.key for s in sites}
+        for k, e in table.items():
+            if k not in live_keys and e["class"] != "finding":
+                budget[panics.key_signature(k)] += 1
+    moved = 0
+    for s in pending:
+        if budget[s.sig] > 0:
+            budget[s.sig] -= 1
+            moved += 1
+            ctx.discharged += 1
+            continue
+        ctx.violation("%spanic/%s" % (rule_prefix, s.key), "%s (%s)" % (s.sp, s.fn),
+                      "possible panic: %s on `%s` is neither guarded (no local discharge rule applies: no dominating "
+                      "is_some/is_ok/len/contains_key/comparison guard on this operand) nor a reviewed site" %
+                      (s.kind.replace("call:", "").replace("assert:", "overflow/bounds check "), s.desc),
+                      {"kind": s.kind, "operand": s.desc, "function": s.fn})
     used = {s.key for s in sites}
     ctx.covered("panic sites (unwrap/expect/index/overflow/division/remove/print/random_range) enumerated in the MIR of %d functions; "
                 "%d discharged by local rules D1-D17, %d by the reviewed table" % (len(analysed_fns(ctx.prog)), n_dis, len(sites) - n_dis),
@@ -69,42 +88,79 @@ def r1(ctx, only=None, rule_prefix=""):
                 sample={"by_kind": dict(kinds), "discharged_examples": [(s.key, s.discharged) for s in sites if s.discharged][:6]})
     if only is None:
         ctx.floor(len(sites), 200, "panic sites in the crate", "crate")
-        stale = [k for k in table if k not in used]
-        if stale:
-            ctx.samples.append({"rule": "C10-R1", "what": "reviewed table entries that match no site of this tree (harmless)", "sample": stale[:10]})
+        if moved:
+            ctx.samples.append({"rule": "C10-R1", "what": "reviewed sites recognised by shape after a move / rename", "sample": moved})
 
 
 def r2(ctx):
     progress.check(ctx)
 
 
+def exec_search_table(ctx):
+    """exit status of exec_search read off its source by the finite interpreter, per scenario
+    (parse result, search result, error count) -> (status, diagnostics written); None where it cannot be evaluated"""
+    import interp
+    h = ctx.anchor_hir(EXEC_SEARCH)
+    out = {}
+    for parse_ok in (True, False):
+        for search in ("ok", "pipe", "other"):
+            for count in (0, 1, 5):
+                if not parse_ok and (search != "ok" or count):
+                    continue
+                effects = []
+
+                def call(node, recv, args, it, env, parse_ok=parse_ok, search=search, count=count, effects=effects):
+                    callee = str(node.get("callee", ""))
+                    m = node.get("m")
+                    if m == "parse" and "Parser" in callee:
+                        return (interp.V("Result::Ok", [interp.Opaque("query")]) if parse_ok else interp.V("Result::Err", [interp.Opaque("parse error")]),)
+                    if callee.endswith("Searcher::new"):
+                        return ({"error_count": count},)
+                    if m == "list_search_results":
+                        if search == "ok":
+                            return (interp.V("Result::Ok", [()]),)
+                        return (interp.V("Result::Err", [{"__kind": "ErrorKind::BrokenPipe" if search == "pipe" else "ErrorKind::Other"}]),)
+                    if m == "kind" and isinstance(recv, dict) and "__kind" in recv:
+                        return (interp.V(recv["__kind"]),)
+                    if m == "is_terminal":
+                        return (True,)
+                    if callee.endswith("error_message"):
+                        effects.append(args[0] if args else "?")
+                        return ((),)
+                    if m in ("unwrap", "expect") and isinstance(recv, interp.V) and recv.name == "Result::Err":
+                        effects.append("PANIC")
+                        raise interp._Return(101)
+                    return (interp.Opaque(m or callee),)
+                try:
+                    v = interp.eval_in(h, h, {"config": {"debug": False}, "no_color": False}, call=call)
+                except interp.Undecided as e:
+                    return None, str(e)
+                out[(parse_ok, search, count)] = (v, list(effects))
+    return out, None
+
+
 def r3(ctx):
     """status mapping"""
     h = ctx.anchor_hir(EXEC_SEARCH)
-    # Err(parse) -> 2 ; error_count 0 -> 0, _ -> 1
-    ok_parse = False
-    ok_count = False
-    for m in find_matches(h, min_arms=2):
-        arms = match_arms(m)
-        tbl = {}
-        for a in arms:
-            for k in a["keys"]:
-                tbl[key_name(k)] = a["body"]
-        if "Ok" in tbl and any(k.startswith("('ts', 'Result::Err'") or k == "Err" for k in tbl):
-            ek = [k for k in tbl if k.startswith("('ts', 'Result::Err'") or k == "Err"][0]
-            tbl["Err"] = tbl[ek]
-            tail = peel_result(tbl["Err"])
-            if tail["k"] == "Block" and "expr" in tail:
-                tail = peel_result(tail["expr"])
-            ok_parse = render(tail) == "2" and "parse" in render(Locals(h).chase(m["scrut"]))
-        if "0" in tbl and "_" in tbl and "error_count" in render(Locals(h).chase(m["scrut"])):
-            ok_count = render(peel_result(tbl["0"])) == "0" and render(peel_result(tbl["_"])) == "1"
+    # Err(parse) -> 2 with a diagnostic; no failure -> 0; failures -> 1; a closed pipe alone is not a failure; another I/O
+    # error of the search -> 1 with a diagnostic
+    tbl, why = exec_search_table(ctx)
+    ok_parse = ok_count = False
+    if tbl is None:
+        ctx.violation("status/unreadable", ctx.where(EXEC_SEARCH), "cannot evaluate exec_search: %s" % why)
+    else:
+        ok_parse = tbl[(False, "ok", 0)][0] == 2 and len(tbl[(False, "ok", 0)][1]) >= 1
+        ok_count = all(tbl[(True, sr, c)][0] == (0 if c == 0 else 1) for sr in ("ok", "pipe") for c in (0, 1, 5)) and \
+            all(tbl[(True, "other", c)][0] == 1 and tbl[(True, "other", c)][1] for c in (0, 1, 5))
+        ctx.covered("exit status of exec_search on 10 scenarios (parse result x search result x error count), read by the finite interpreter",
+                    len(tbl), distinct_keys=[str(k) for k in tbl], sample={str(k): v[0] for k, v in tbl.items()}, exhaustive=True)
     ctx.obligation(ok_parse)
     ctx.obligation(ok_count)
     if not ok_parse:
         ctx.violation("status/parse-error", ctx.where(EXEC_SEARCH), "a parse error must end with status 2")
     if not ok_count:
-        ctx.violation("status/error-count", ctx.where(EXEC_SEARCH), "a search without errors must end with status 0 and one with errors with status 1")
+        ctx.violation("status/error-count", ctx.where(EXEC_SEARCH), "a search without errors must end with status 0 and one with errors with status 1%s" %
+                      ("; found %s" % {str(k): v[0] for k, v in tbl.items()} if tbl else ""))
     # an I/O error of the search is not unwrapped: reported, status 1
     sr = [c for c in walk_exprs(h) if c["k"] == "MCall" and c["m"] == "list_search_results"]
     ok = len(sr) == 1
@@ -120,7 +176,7 @@ def r3(ctx):
     for b in ctx.prog.bodies():
         for i, t in b.calls():
             if b.callee(t).endswith("process::exit"):
-                exits.append(b.name)
+                exits.extend(sorted(ctx.prog.owners(b.name)))
     ok = exits == ["util::error_exit"]
     ctx.obligation(ok)
     if not ok:
